@@ -337,6 +337,8 @@ func (f fatalT) Logf(format string, a ...any)   {}
 func enumerate(t *testing.T, cs caseSpec, maxPreempt int, fixed []int, onResult func(execResult)) int {
 	count := 0
 	prefix := append([]int{}, fixed...)
+	var known []int // branching at the positions of prefix, from the run that produced it
+	first, retries := true, 0
 	for {
 		var branching, taken []int
 		preempts := 0
@@ -353,7 +355,7 @@ func enumerate(t *testing.T, cs caseSpec, maxPreempt int, fixed []int, onResult 
 				v = prefix[k]
 			}
 			if maxPreempt >= 0 && preempts >= maxPreempt && cur >= 0 {
-				if k < len(fixed) && v != 0 {
+				if k < len(prefix) && v != 0 {
 					invalid = true
 				}
 				taken = append(taken, 0)
@@ -371,11 +373,25 @@ func enumerate(t *testing.T, cs caseSpec, maxPreempt int, fixed []int, onResult 
 			branching = append(branching, b)
 			return (def + v) % b
 		})
-		if invalid || len(taken) < len(fixed) {
-			return count
+		if invalid || len(taken) < len(prefix) {
+			if first {
+				return count // this subtree does not exist
+			}
+			// the prefix did not replay the way it was recorded (which task is seen blocked on a lock first is a matter
+			// of timing): try again, then give the prefix up as if it were a leaf and move on to its siblings
+			if retries < 2 {
+				retries++
+				continue
+			}
+			taken, branching = append([]int{}, prefix...), append([]int{}, known...)
+			for len(branching) < len(taken) {
+				branching = append(branching, 1)
+			}
+		} else {
+			count++
+			onResult(r)
 		}
-		count++
-		onResult(r)
+		first, retries = false, 0
 		i := len(taken) - 1
 		for ; i >= len(fixed); i-- {
 			if taken[i]+1 < branching[i] {
@@ -386,6 +402,7 @@ func enumerate(t *testing.T, cs caseSpec, maxPreempt int, fixed []int, onResult 
 			return count
 		}
 		prefix = append(append([]int{}, taken[:i]...), taken[i]+1)
+		known = append([]int{}, branching[:i+1]...)
 	}
 }
 
